@@ -470,8 +470,10 @@ func VerifC10Units(thorough bool, extraMax map[string]int) []VerifUnit {
 					continue // the encoder refuses the base value of this version
 				}
 				out = append(out, VerifUnit{ID: fmt.Sprintf("%s|v%d|c%d|base", f.Name, v, ci), Family: f.Name, Weight: w})
-				if thorough {
-					for si, s := range slots {
+				for si, s := range slots {
+					// quick: only the seeds that differ from the base value in the size of a collection (two messages in a
+					// set, two partitions in a response, ...): decoders that carry state from one element to the next
+					if thorough || s.kind == "slice" || s.kind == "map" {
 						out = append(out, VerifUnit{ID: fmt.Sprintf("%s|v%d|c%d|slot:%d", f.Name, v, ci, si), Family: f.Name, Weight: w * len(s.alts)})
 					}
 				}
